@@ -15,7 +15,11 @@ fn leak(s: String) -> &'static str {
     Box::leak(s.into_boxed_str())
 }
 
+/// what a service may be configured with as vendor / product / version / url
+const INFO_POOL: &[&str] = &["V e n", "P\"rod", "1.2.3-β", "http://u/?a=b&c", "", " ", "0", "null", "ü\n\t\\", "x"];
+
 struct Cfg {
+    info: [&'static str; 4],
     names: Vec<&'static str>,
     with_gen: bool,
     with_fmt: bool,
@@ -56,8 +60,11 @@ fn make_cfg(rng: &mut Rng) -> Cfg {
     if with_fmt {
         ifs.push(Box::new(fmt::new(Box::new(FmtImpl))));
     }
-    let svc = VarlinkService::new("V e n", "P\"rod", "1.2.3-β", "http://u/?a=b&c", ifs);
-    Cfg { names, with_gen, with_fmt, svc, log }
+    // three configurations in four keep the fixed texts (replay reconstructs those), one draws
+    // each member from the pool (the empty string included)
+    let info: [&'static str; 4] = if rng.chance(1, 4) { [*rng.pick(INFO_POOL), *rng.pick(INFO_POOL), *rng.pick(INFO_POOL), *rng.pick(INFO_POOL)] } else { ["V e n", "P\"rod", "1.2.3-β", "http://u/?a=b&c"] };
+    let svc = VarlinkService::new(info[0], info[1], info[2], info[3], ifs);
+    Cfg { info, names, with_gen, with_fmt, svc, log }
 }
 
 fn method_strings(cfg: &Cfg, rng: &mut Rng) -> Vec<String> {
@@ -236,7 +243,7 @@ pub fn main(ctx: &Ctx) -> i32 {
                 let nontrivial = !cfg.names.is_empty() || m.starts_with("org.varlink.service.");
                 ctx.case(if nontrivial { Some(hash_of(&(&cfg.names, cfg.with_gen, cfg.with_fmt, m, flags, upgrade_flag, params.as_ref().map(|p| p.to_string())))) } else { None });
                 ctx.count("recorder_calls_observed", calls.len() as u64);
-                let wit = |msg: String| json!({"engine": "c03", "registered": cfg.names, "with_generated": cfg.with_gen, "with_generated_fmt": cfg.with_fmt, "request": Value::Object(req.clone()), "reply_bytes": show(&run.out), "closed": run.closed, "recorder_calls": format!("{:?}", calls), "message": msg});
+                let wit = |msg: String| json!({"engine": "c03", "configured_info": cfg.info, "registered": cfg.names, "with_generated": cfg.with_gen, "with_generated_fmt": cfg.with_fmt, "request": Value::Object(req.clone()), "reply_bytes": show(&run.out), "closed": run.closed, "recorder_calls": format!("{:?}", calls), "message": msg});
                 if let Some(p) = &run.panicked {
                     ctx.violation("c03:panic", wit(format!("panic {}", p)));
                     continue;
@@ -297,7 +304,7 @@ pub fn main(ctx: &Ctx) -> i32 {
                             }
                         } else if frames.len() != 1 {
                             ctx.violation("c03:getinfo", wit(format!("{} frames", frames.len())));
-                        } else if let Err(e) = check_getinfo(&normalise(frames[0].clone()), "V e n", "P\"rod", "1.2.3-β", "http://u/?a=b&c", &registered) {
+                        } else if let Err(e) = check_getinfo(&normalise(frames[0].clone()), cfg.info[0], cfg.info[1], cfg.info[2], cfg.info[3], &registered) {
                             ctx.violation("c03:getinfo", wit(e));
                         }
                     }
@@ -324,7 +331,7 @@ pub fn main(ctx: &Ctx) -> i32 {
                     let run2 = run_whole(&cfg.svc, &two, None);
                     let f2 = canon_frames(&run2.out);
                     ctx.count("pipelined_follow_ups", 1);
-                    let ok = run2.closed.is_none() && f2.len() == frames.len() + 1 && f2[..frames.len()] == frames[..] && check_getinfo(&normalise(f2[f2.len() - 1].clone()), "V e n", "P\"rod", "1.2.3-β", "http://u/?a=b&c", &registered).is_ok();
+                    let ok = run2.closed.is_none() && f2.len() == frames.len() + 1 && f2[..frames.len()] == frames[..] && check_getinfo(&normalise(f2[f2.len() - 1].clone()), cfg.info[0], cfg.info[1], cfg.info[2], cfg.info[3], &registered).is_ok();
                     if !ok {
                         ctx.violation("c03:routing:follow-up-call-not-answered", wit(format!("with a GetInfo call behind it in the same stream the replies are {} (closed: {:?}); alone the request drew {}", show(&run2.out), run2.closed, show(&run.out))));
                     }
@@ -473,7 +480,8 @@ pub fn replay(ctx: &Ctx, w: &Value) {
     if with_fmt {
         ifs.push(Box::new(fmt::new(Box::new(FmtImpl))));
     }
-    let svc = VarlinkService::new("V e n", "P\"rod", "1.2.3-β", "http://u/?a=b&c", ifs);
+    let info: Vec<&'static str> = w.get("configured_info").and_then(|v| v.as_array()).map(|a| a.iter().map(|x| leak(x.as_str().unwrap_or("").to_string())).collect()).unwrap_or_else(|| vec!["V e n", "P\"rod", "1.2.3-β", "http://u/?a=b&c"]);
+    let svc = VarlinkService::new(info[0], info[1], info[2], info[3], ifs);
     let mut bytes = serde_json::to_vec(w.get("request").unwrap_or(&Value::Null)).unwrap();
     bytes.push(0);
     let run = run_whole(&svc, &bytes, None);
